@@ -25,8 +25,13 @@ Definition g_pow (a b : expr) : res expr :=
          end) (a_pow a b).
 Definition g_mfd (c : number) (d : mdict) : res expr :=
   guard (xok c && wf (mul_from_dict c d)) (Ok (mul_from_dict c d)).
+(* boolean form of ArithDict.dinv *)
+Definition dinv_b (d : adict) : bool :=
+  forallb (fun p => wf (fst p) && xok (snd p) && negb (num_is_zero (snd p))) d && pairwise_ne (map fst d).
+(* Add::from_dict: either the dictionary has legal keys only (den_afd), or the result is the plain Add node *)
 Definition g_afd (c : number) (d : adict) : res expr :=
-  guard (xok c && adict_ok d) (Ok (add_from_dict c d)).
+  guard (xok c && (adict_ok d || (dinv_b d && ((2 <=? length d)%nat || negb (num_is_zero c)))))
+        (Ok (add_from_dict c d)).
 Definition g_mulnum (x y : number) : res number := guard (xok x && xok y) (mulnum_ x y).
 Definition g_nummul (x y : number) : res number := guard (xok x && xok y) (num_mul x y).
 Definition g_addnum (x y : number) : res number := guard (xok x && xok y) (num_add x y).
